@@ -1781,7 +1781,12 @@ class Symex:
                     for xs in (zip(*[self.iterate(a, node) for a in args[1:]]) if len(args) > 2
                                else self.iterate(args[1], node))]
         if name == "filter":
+            if args[0] is None:
+                return [x for x in self.iterate(args[1], node) if self.truth(x, node)]
             return [x for x in self.iterate(args[1], node) if self.truth(self.call_value(args[0], [x], {}, node))]
+        if name == "iter" and len(args) == 1 and not kw:
+            # an iterator is a private list that next() / for-loops consume from the front
+            return list(self.iterate(args[0], node))
         if name in ("any", "all") and len(args) == 1:
             vals = self.iterate(args[0], node)
             if any(isinstance(v, T) for v in vals):
@@ -1844,7 +1849,7 @@ class Symex:
             if short in ("fullmatch", "match"):     # only the truth value / the matched text of a match object
                 return None if r is None else r.group(0)
             return r
-        if name == "next" and args and isinstance(args[0], list) and not kw:
+        if name == "next" and args and isinstance(args[0], list) and not isinstance(args[0], _CountSeq) and not kw:
             # generators are materialised as lists that nothing else refers to: next() consumes the front
             if args[0]:
                 return args[0].pop(0)
